@@ -168,3 +168,64 @@ def roundtrip_obligations():
             obs.append(Obligation(f"{KEY}/roundtrip/p{len(obs)}/post.same-signal", "post", list(s2.pc), back.z == sig.z,
                                   KEY, "roundtrip", len(obs)))
     return obs, info
+
+
+# ---------------------------------------------------------------------------------------------------------------------
+# export_concat: VLSIR concatenations are most-significant part first, Hdl21's least-significant first - the exported
+# parts are the exports of the parts in REVERSE order (tuple arity unrolled for 1-4 parts: bounded in the arity,
+# symbolic in the parts).
+# ---------------------------------------------------------------------------------------------------------------------
+class ExportTargetCallee(Contract):
+    key = KEY
+    pure = False
+    raises = (RuntimeError, ValueError, TypeError)
+    returns = "ref"
+    result_classes = (vckt.ConnectionTarget,)
+
+    def scenarios(self, eng):
+        return []
+
+    def frame(self, eng, st, a):
+        st.heap.havoc_field("_inner")
+
+    def make_result(self, eng, st, a):
+        return st.alloc(vckt.ConnectionTarget)
+
+
+def export_concat_obligations():
+    key = "hdl21.proto.exporting:export_concat"
+    ext = loader.extract(key)
+    info = {"sha": ext.sha, "lines": ext.lines, "path": ext.path, "paths": 0, "scenarios": 0, "unsupported": []}
+    obs = []
+    for arity in (1, 2, 3, 4):
+        schema = dict(SCHEMA_EXTRA)
+        schema["Concat.parts"] = "py"
+        schema["parts"] = "seq[ref]"
+        eng = mk_engine(contracts=[ExportTargetCallee()], schema_extra=schema, field_classes=c_import.FIELD_CLASSES)
+        st = eng.new_state()
+        cc = sym_ref(st, "concat", (Concat,))
+        parts = tuple(sym_ref(st, f"part{k}", (Signal, Slice, Concat)) for k in range(arity))
+        eng.write_field(st, cc, "parts", parts)
+        eng.cuts = []
+        try:
+            outs = eng.run(ext, st, {"concat": cc})
+        except Unsupported as e:
+            info["unsupported"].append(f"arity {arity}: {e}")
+            continue
+        info["scenarios"] += 1
+        for pi, (kind, s2, v) in enumerate(outs):
+            info["paths"] += 1
+            if kind != "ret":
+                continue           # a part that cannot be exported: refusal is allowed
+            calls = [c for c in s2.calls if c[0] == KEY]
+            order_ok = len(calls) == arity and all(isinstance(calls[j][1].sig, SRef) and calls[j][1].sig.z.eq(parts[arity - 1 - j].z) for j in range(arity))
+            goal = z3.BoolVal(False)
+            if order_ok and isinstance(v, SRef):
+                got = eng.read_field(s2, v, "parts")[0][1]
+                if isinstance(got, (list, tuple)):      # (vlsir's Concat shares the class name: python-side field)
+                    goal = z3.BoolVal(len(got) == arity and all(isinstance(g, SRef) for g in got))
+                elif isinstance(got, SLoc):
+                    goal = z3.Length(s2.heap.get(got.field, got.owner)) == arity
+            obs.append(Obligation(f"{key}/arity{arity}/p{pi}/post.parts-in-reverse-order", "post", list(s2.pc), goal, key,
+                                  f"arity{arity}", pi, {"trace": list(s2.trace), "havoc": list(s2.ghost.get("havoc", ()))}))
+    return key, obs, info
